@@ -206,6 +206,16 @@ class MiniDB:
         raise SqlUnsupported("statement %s" % v)
 
     def table(self, name):
+        if name.lower() == "sqlite_master":
+            t = Table("sqlite_master", [("type", "text"), ("name", "text"), ("tbl_name", "text"), ("rootpage", "int"), ("sql", "text")], [])
+            for tn, tb in self.tables.items():
+                t.rows.append({"type": "table", "name": tb.name, "tbl_name": tb.name, "rootpage": 0, "rowid": len(t.rows) + 1,
+                               "sql": "CREATE TABLE %s (%s)" % (tb.name, ", ".join(c for c, _a in tb.cols))})
+            for ix in sorted(self.indexes):
+                t.rows.append({"type": "index", "name": ix, "tbl_name": None, "rootpage": 0, "sql": None, "rowid": len(t.rows) + 1})
+            if self.analyzed:
+                t.rows.append({"type": "table", "name": "sqlite_stat1", "tbl_name": "sqlite_stat1", "rootpage": 0, "sql": "CREATE TABLE sqlite_stat1(tbl,idx,stat)", "rowid": len(t.rows) + 1})
+            return t
         t = self.tables.get(name.lower())
         if t is None:
             raise OperationalError("no such table: %s" % name)
